@@ -442,7 +442,7 @@ def run(ctx):
         'pformat/eval and deepcopy are the identity on the model; checked dynamically (plain data, eval(pformat(d)) == d)',
     ]
     ctx.assumptions += [
-        'model variant [repaired]: proposed_fixes/C13-numeric-enums-default.diff, C03-group-default-preprocess.diff, '
+        'model variant [repaired]: proposed_fixes/C13-numeric-enums-default.diff, '
         'C19-boolean-default-reference.diff, C19-components-of-first.diff, C19-ext-implied-element.diff are applied to /repo',
         'serialisation steps keep the key order in the model; that pre_process does not depend on the key order '
         '(pformat sorts keys) is tested on every case, not proved',
